@@ -305,7 +305,18 @@ Definition op_specs : list (string * bexpr) :=
     ("phy.Phy.set_packet_size", spec_phy_can_set_packet_size);
     ("phy.Phy.set_sync_word", spec_phy_can_set_sync_word);
     ("phy.Phy.send", spec_phy_can_send);
-    ("phy.Phy.schedule_send", BAnd spec_phy_can_send spec_phy_can_schedule_packets) ].
+    ("phy.Phy.schedule_send", BAnd spec_phy_can_send spec_phy_can_schedule_packets);
+    (* handlers of device-originated events: operations triggered by the device.  The clean-up on
+       disconnection deletes the prepared sequences, which needs DeleteSequence; the other handlers
+       never transmit ([BConst false]: no path may transmit, on any interface) *)
+    ("ble.BLE.on_disconnected", spec_ble_can_delete_sequence);
+    ("ble.BLE.on_connected", BConst false);
+    ("ble.BLE.on_synchronized", BConst false);
+    ("ble.BLE.on_desynchronized", BConst false);
+    ("ble.BLE.on_triggered", BConst false);
+    ("dot15d4.Dot15d4.on_jammed", BConst false);
+    ("dot15d4.Dot15d4.on_ed_sample", BConst false);
+    ("esb.ESB.on_jammed", BConst false) ].
 
 (** ---- table helpers used by the generated file and the harness ---- *)
 Fixpoint assoc {A} (k : string) (l : list (string * A)) : option A :=
